@@ -250,27 +250,36 @@ def showCapColData : CapColData → T
   | .string xs => listNode "string" (xs.map showNameT)
   | .mixed xs => listNode "mixed" (xs.map showAny)
 
-def walOf : T → Option WalSegment
-  | .node "wal" [id, tables] => do
-      let ts ← (← kidsOf "tables" tables).mapM fun t =>
-        match t with
-        | .node "t" [n, len, cols] => do
-            let cs ← (← kidsOf "cols" cols).mapM fun c =>
-              match c with
-              | .node "c" [cn, d] => do pure ((← nameOf cn), (← colDataOf d))
-              | _ => none
-            pure ((← nameOf n), ({ len := (← natOf len), columns := cs } : TableBuffer))
+def tableOf : T → Option (Name × TableBuffer)
+  | .node "t" [n, len, cols] => do
+      let cs ← (← kidsOf "cols" cols).mapM fun c =>
+        match c with
+        | .node "c" [cn, d] => do pure ((← nameOf cn), (← colDataOf d))
         | _ => none
-      pure { id := (← natOf id), tables := ts }
+      pure ((← nameOf n), ({ len := (← natOf len), columns := cs } : TableBuffer))
   | _ => none
 
-def showWal (w : WalSegment) : T :=
-  .node "wal" [showNat w.id, listNode "tables" (w.tables.map fun (n, t) =>
-    .node "t" [showNameT n, showNat t.len, listNode "cols" (t.columns.map fun (cn, d) => .node "c" [showNameT cn, showColData d])])]
+/-- `tables(t(name,len,cols(c(name,data),…)),…)` -/
+def tablesOf (t : T) : Option (List (Name × TableBuffer)) := do (← kidsOf "tables" t).mapM tableOf
 
-def showCapWal (w : CapWal) : T :=
-  .node "cwal" [showNat w.id, listNode "data" (w.data.map fun t =>
-    .node "ts" [showNameT t.name, showNat t.len, listNode "columns" (t.columns.map fun (cn, d) => .node "cc" [showNameT cn, showCapColData d])])]
+def walOf : T → Option WalSegment
+  | .node "wal" [id, tables] => do pure { id := (← natOf id), tables := (← tablesOf tables) }
+  | _ => none
+
+def showTables (ts : List (Name × TableBuffer)) : T :=
+  listNode "tables" (ts.map fun (n, t) =>
+    .node "t" [showNameT n, showNat t.len, listNode "cols" (t.columns.map fun (cn, d) => .node "c" [showNameT cn, showColData d])])
+
+def showWal (w : WalSegment) : T := .node "wal" [showNat w.id, showTables w.tables]
+
+def showCapTables (ts : List CapTableSegment) : T :=
+  listNode "data" (ts.map fun t =>
+    .node "ts" [showNameT t.name, showNat t.len, listNode "columns" (t.columns.map fun (cn, d) => .node "cc" [showNameT cn, showCapColData d])])
+
+def showCapWal (w : CapWal) : T := .node "cwal" [showNat w.id, showCapTables w.data]
+
+/-- the bare `TableSegmentList` message of `EventBuffer::serialize` -/
+def showCapTsl (ts : List CapTableSegment) : T := .node "ctsl" [showCapTables ts]
 
 /-! ### catalogue -/
 
@@ -304,5 +313,105 @@ def showCapMeta (m : CapMeta) : T :=
   .node "cmeta" [showNat m.nextWalId, listNode "partitions" (m.partitions.map fun p =>
     .node "cp" [showNat p.id, showNameT p.tablename, showNat p.offset, showNat p.len,
       listNode "subpartitions" (p.subpartitions.map fun s => .node "cs" [showNat s.sizeBytes, showNameT s.subpartitionKey, showNameT s.lastColumn])])]
+
+/-! ### message trees as input (hand-made messages handed to the real readers) -/
+
+def capEncOf (t : T) : Option CapEnc := t.atom?.bind fun s =>
+  match s.splitOn "." with
+  | [n, _] => [("U8", CapEnc.U8), ("U16", .U16), ("U32", .U32), ("U64", .U64), ("I64", .I64), ("Null", .Null), ("F64", .F64), ("Bitvec", .Bitvec)].lookup n
+  | _ => none
+
+def capOpOf : T → Option CapOp
+  | .node "nullable" [] => some .nullable
+  | .node "add" [t, a] => do pure (.add (← capEncOf t) (← intOf a))
+  | .node "delta" [t] => do pure (.delta (← capEncOf t))
+  | .node "toI64" [t] => do pure (.toI64 (← capEncOf t))
+  | .node "pushDataSection" [n] => do pure (.pushDataSection (← natOf n))
+  | .node "dictLookup" [t] => do pure (.dictLookup (← capEncOf t))
+  | .node "lz4" [t, n] => do pure (.lz4 (← capEncOf t) (← natOf n))
+  | .node "pco" [t, n, b] => do pure (.pco (← capEncOf t) (← natOf n) (← boolOf b))
+  | .node "unpackStrings" [] => some .unpackStrings
+  | .node "unhexpackStrings" [u, n] => do pure (.unhexpackStrings (← boolOf u) (← natOf n))
+  | _ => none
+
+def capSecOf : T → Option CapSection
+  | .node "u8" [x] => do pure (.u8 (← bytesOf x))
+  | .node "bitvec" [x] => do pure (.bitvec (← bytesOf x))
+  | .node "null" [n] => do pure (.null (← natOf n))
+  | .node "lz4" [d, b, x] => do pure (.lz4 (← natOf d) (← natOf b) (← bytesOf x))
+  | .node "pco" [d, b, x, f] => do pure (.pco (← natOf d) (← natOf b) (← bytesOf x) (← boolOf f))
+  | t =>
+    (do let ks ← kidsOf "u16" t; pure (.u16 (← ks.mapM natOf))) <|>
+    (do let ks ← kidsOf "u32" t; pure (.u32 (← ks.mapM natOf))) <|>
+    (do let ks ← kidsOf "u64" t; pure (.u64 (← ks.mapM natOf))) <|>
+    (do let ks ← kidsOf "i64" t; pure (.i64 (← ks.mapM intOf))) <|>
+    (do let ks ← kidsOf "f64" t; pure (.f64 (← ks.mapM bitsOf)))
+
+def capColOf : T → Option CapColumn
+  | .node "ccol" [n, len, range, ops, data] => do
+      let r ← match range with
+        | .node "empty" [] => some CapRange.empty
+        | .node "range" [s, e] => do pure (CapRange.range (← intOf s) (← intOf e))
+        | _ => none
+      pure { name := (← nameOf n), len := (← natOf len), range := r,
+             codec := (← (← kidsOf "codec" ops).mapM capOpOf), data := (← (← kidsOf "data" data).mapM capSecOf) }
+  | _ => none
+
+def capSegOf (t : T) : Option (List CapColumn) := do (← kidsOf "cseg" t).mapM capColOf
+
+def capColDataOf (t : T) : Option CapColData :=
+  match t with
+  | .node "empty" [] => some .empty
+  | .node "sparseF64" [is, vs] => do pure (.sparseF64 (← (← kidsOf "indices" is).mapM natOf) (← (← kidsOf "values" vs).mapM bitsOf))
+  | .node "sparseI64" [is, vs] => do pure (.sparseI64 (← (← kidsOf "indices" is).mapM natOf) (← (← kidsOf "values" vs).mapM intOf))
+  | t =>
+    (do let ks ← kidsOf "f64" t; pure (.f64 (← ks.mapM bitsOf))) <|>
+    (do let ks ← kidsOf "i64" t; pure (.i64 (← ks.mapM intOf))) <|>
+    (do let ks ← kidsOf "string" t; pure (.string (← ks.mapM nameOf))) <|>
+    (do let ks ← kidsOf "mixed" t; pure (.mixed (← ks.mapM anyOf)))
+
+def capTablesOf (t : T) : Option (List CapTableSegment) := do
+  (← kidsOf "data" t).mapM fun ts =>
+    match ts with
+    | .node "ts" [n, len, cols] => do
+        let cs ← (← kidsOf "columns" cols).mapM fun c =>
+          match c with
+          | .node "cc" [cn, d] => do pure ((← nameOf cn), (← capColDataOf d))
+          | _ => none
+        pure ({ name := (← nameOf n), len := (← natOf len), columns := cs } : CapTableSegment)
+    | _ => none
+
+def capWalOf : T → Option CapWal
+  | .node "cwal" [id, data] => do pure { id := (← natOf id), data := (← capTablesOf data) }
+  | _ => none
+
+def capMetaOf : T → Option CapMeta
+  | .node "cmeta" [next, parts] => do
+      let ps ← (← kidsOf "partitions" parts).mapM fun p =>
+        match p with
+        | .node "cp" [id, table, offset, len, subs] => do
+            let ss ← (← kidsOf "subpartitions" subs).mapM fun s =>
+              match s with
+              | .node "cs" [size, key, last] => do
+                  pure ({ sizeBytes := (← natOf size), subpartitionKey := (← nameOf key), lastColumn := (← nameOf last) } : CapSub)
+              | _ => none
+            pure ({ id := (← natOf id), tablename := (← nameOf table), offset := (← natOf offset), len := (← natOf len), subpartitions := ss } : CapPart)
+        | _ => none
+      pure { nextWalId := (← natOf next), partitions := ps }
+  | _ => none
+
+/-- Rust `String` order = lexicographic order of the scalar values. -/
+def nameLe : Name → Name → Bool
+  | [], _ => true
+  | _ :: _, [] => false
+  | a :: as, b :: bs => a < b || (a == b && nameLe as bs)
+
+def sortByName {β} (l : List (Name × β)) : List (Name × β) := l.mergeSort fun a b => nameLe a.1 b.1
+
+def sortTables (ts : List (Name × TableBuffer)) : List (Name × TableBuffer) :=
+  sortByName (ts.map fun (n, t) => (n, { t with columns := sortByName t.columns }))
+
+def sortParts (ps : List PartitionMetadata) : List PartitionMetadata :=
+  ps.mergeSort fun a b => if a.tablename == b.tablename then a.id ≤ b.id else nameLe a.tablename b.tablename
 
 end LM.SegProto
